@@ -34,7 +34,9 @@ import (
 func init() { reg.Register("C14", "model_checking", Run) }
 
 // Alphabet is the boundary alphabet of DESIGN.md section 4 (C14).
-var Alphabet = []int{0x00, 0x22, 0x27, 0x5C, 0x41, 0x7F, 0x80, 0x8F, 0x90, 0x9F, 0xA0, 0xBF, 0xC0, 0xC1, 0xC2, 0xDF, 0xE0, 0xED, 0xEF, 0xF0, 0xF4, 0xF5, 0xFF}
+// 0x30 and 0x38 ('0', '8'): digits directly after an escaped byte of a literal (an escape such as \0 or \x0
+// must not swallow or be changed by a following digit; seeded change C14-b).
+var Alphabet = []int{0x00, 0x22, 0x27, 0x5C, 0x41, 0x30, 0x38, 0x7F, 0x80, 0x8F, 0x90, 0x9F, 0xA0, 0xBF, 0xC0, 0xC1, 0xC2, 0xDF, 0xE0, 0xED, 0xEF, 0xF0, 0xF4, 0xF5, 0xFF}
 
 var boundaryRunes = []int{-1, 0, 0x41, 0x7F, 0x80, 0x7FF, 0x800, 0xD7FF, 0xD800, 0xDFFF, 0xE000, 0xFFFD, 0xFFFF, 0x10000, 0x10FFFF, 0x110000, 0x7FFFFFFF, -0x7FFFFFFF}
 
